@@ -285,6 +285,16 @@ def run_case(case):
                     first_eval = cost(a_n) < cost(comp)
                 if other is None and not first_eval:
                     V.append(f"request {list(idx)}: factor {tag} evaluated at {entry[1:]} although the complementary order {comp} of the other factor is absent")
+    # the factors' cached values must be untouched by the product evaluation
+    for t, (f, model) in enumerate(zip(facs, models)):
+        for idx_f, v in list(f._data.items()):
+            want_f = model(idx_f[0], idx_f[1], tuple(idx_f[2:]))
+            if v is zero or v is one or want_f is None or isinstance(want_f, str):
+                if (v is zero) != (want_f is None) or (v is one) != isinstance(want_f, str):
+                    V.append(f"cached element {list(idx_f)} of factor {t} changed its sentinel during product evaluation")
+                continue
+            if not np.array_equal(np.asarray(v), want_f):
+                V.append(f"cached element {list(idx_f)} of factor {t} was modified by the product evaluation")
     desc = f"[{case['kind']} grids={grids} k={k} pats={pats} hermitian={case['herm']} order={case['ro']}]"
     return dict(violations=[dict(what=f"{w} {desc}", key=key) for w in V[:3]], nontrivial=nontrivial,
                 outcome="ok" if not V else ("K2" if key else "violation"), stats=dict(elements_compared=compared), sample=case)
